@@ -208,6 +208,15 @@ def run(ctx):
                                               "file": os.path.relpath(full_path, core.rules_dir()), "step": q, "lines": list(lines)})
                 elif full_path in log:
                     disagreements.append({"why": "the full Unicode table was read by a call that does not need it in a fresh session", "file": os.path.relpath(full_path, core.rules_dir()), "step": q, "lines": list(lines)})
+            else:
+                # overview / navigation use the speech tables too (the tables are shared by the Intent, Speech, Overview and Navigation rule sets):
+                # whether such a call needs the full table is not predicted, but a read of it goes through the model's cell, and must be one the model allows
+                for sd in ("speech", "braille"):
+                    fp = os.path.realpath(files[sd + "_unicode_full"])
+                    if fp in log:
+                        ok2, needs, _ = sim.full_read(sd, files, check != "All")
+                        if not needs:
+                            disagreements.append({"why": "the full Unicode table was read again although the model holds it up to date", "file": os.path.relpath(fp, core.rules_dir()), "step": q, "lines": list(lines)})
             if pred != log_eager:
                 disagreements.append({"why": "files read by a call differ from the model's prediction", "step": q, "impl": [os.path.relpath(p, core.rules_dir()) for p in log_eager],
                                       "model": [os.path.relpath(p, core.rules_dir()) for p in pred], "lines": list(lines)})
